@@ -138,8 +138,8 @@ var c01Graphs = map[string]func() *Graph{
 		}
 		return g
 	},
-	"q1":  graphQ1,
-	"q2":  graphQ2,
+	"q1": graphQ1,
+	"q2": graphQ2,
 }
 
 var c01GraphCache = map[string]*Graph{}
@@ -158,7 +158,7 @@ func c01Graph(name string) (*Graph, string) {
 func init() {
 	Register(Meta{
 		ID: "C01", Level: "exploration",
-		Rule:        "family prop: every formula over not/and/or/if/if-else with <=S connective nodes and width<=3 over atoms p1..p3 (ordered operands, repetition, explicit and implicit `and` spellings), each decided on all 8 truth assignments x {target, non-target, doubly-typed} nodes; family quant: nested/atLeast k/atMost k over every inner formula of size<=1 on child atoms, in 9 connective contexts, on 71 parents = atom bit x every multiset of <=3 children over 4 child kinds (children shared); family depth: quantifier chains and sibling quantifiers to depth 3 on a 3-layer graph; family atoms: documented atomic constraint kinds, plain and negated, on their value domains. Oracle = recursive classical evaluator written from the statement. Non-trivial = formula whose reference truth table over the target nodes has both values; distinct by rendered profile text.",
+		Rule:        "family prop: every formula over not/and/or/if/if-else with <=S connective nodes and width<=3 over atoms p1..p3 (ordered operands, repetition, explicit and implicit `and` spellings), each decided on all 8 truth assignments x {target, non-target, doubly-typed} nodes; family quant: nested/atLeast k/atMost k over every inner formula of size<=1 on child atoms, in 9 connective contexts, and over every inner formula of size 2 (bare; thorough: also negated and under `and`), on 71 parents = atom bit x every multiset of <=3 children over 4 child kinds (children shared); family depth: quantifier chains and sibling quantifiers to depth 3 on a 3-layer graph; family atoms: documented atomic constraint kinds, plain and negated, on their value domains. Oracle = recursive classical evaluator written from the statement. Non-trivial = formula whose reference truth table over the target nodes has both values; distinct by rendered profile text.",
 		Assumptions: []string{"json-gold flattening of an already flat, fully expanded document is the identity on the graph (cross-checked by C05)"},
 	}, c01Gen, c01Run)
 }
@@ -265,6 +265,23 @@ func c01Gen(tier string, emit func(c01Case)) {
 		)
 	}
 	packEmit("quant", "q1", ctxs)
+
+	// ---- family 2c: quantifiers over inner formulas with two connectives (a disjunction of conjunctions, a negated
+	// conditional, ... — the translator expands the inner formula into several branches and has to combine the
+	// per-branch sets of failing children); bare and negated (thorough: also under `and` with an atom)
+	{
+		inner2 := PropFormulas(2, []int{4, 5}, 2)
+		var q2s []*F
+		for _, in := range inner2 {
+			for _, q := range []*F{FNested(path, in), FAtLeast(1, path, in), FAtLeast(2, path, in), FAtMost(0, path, in), FAtMost(1, path, in)} {
+				q2s = append(q2s, q)
+				if tier == "thorough" {
+					q2s = append(q2s, FNot(q), FAnd(A, q))
+				}
+			}
+		}
+		packEmit("quant2", "q1", q2s)
+	}
 
 	// ---- family 2b: depth and sibling quantifiers
 	mkQ := func(kind int, body *F) *F {
